@@ -368,6 +368,23 @@ EXTRA_RULE = {
     "C20": " Tags rel,,inv and rel,,; json names differing only by case; after everything else the built type is edited and BuildType is called again; interface-typed fields, embedded structs with tagged fields, now and then 65-68 fields.",
 }
 
+# (rounds 20 and later of seeded changes)
+EXTRA_RULE_LATE = {
+    "C03": " The second marshal of a document happens under another PrePath half the time and is validated against that one.",
+    "C07": " Members of and/or lists in filter parameters are null now and then; fields lists with as many names as the type has fields.",
+    "C08": " Fields lists with as many names as the type has fields, one of them id (with or without one more name that is not a field).",
+    "C09": " The empty byte string comes allocated and as a nil slice.",
+    "C11": " One document in four carries top-level links of its own (paths, absolute, empty, with meta).",
+    "C12": " One marshal-softcol operation in six has 17 to 129 members.",
+    "C13": " A relationship member may be null; one payload in eight is preceded by white space or by text that is not white space.",
+    "C17": " Equality pairs include a to-many list and its prefix in the same array, handed over as they are.",
+    "C19": " At is also read far outside the range (1<<32, 1<<32+1, -(1<<32), 1<<62+1, the ends of int).",
+    "C20": " The built type must be Type.Equal to the wrapper's type and to the type of Type.New(); a copy must be EqualStrict to its source, also with empty non-nil byte strings and lists.",
+}
+
+for _pid, _extra in EXTRA_RULE_LATE.items():
+    EXTRA_RULE[_pid] += _extra
+
 for _pid, _extra in EXTRA_RULE.items():
     PROPS[_pid]["rule"] += _extra
 
